@@ -166,7 +166,7 @@ bodies!(w32, u32, i32, u64, i64, 4);
 //@ bound=width-reduced T=u16, DECIMALS=2 (UNIT 100): every u16 pool amount, minimum and distribution rate, every u64 duration
 //@ stubs=market environment = plain-struct VMarket (harness/model/src/vmarket.rs)
 #[kani::proof]
-fn c14_pending_distribution_matches_reference_u16() {
+fn c14_pending_distribution_exact_ref_u16() {
     w16::pending_amount();
 }
 
@@ -204,7 +204,7 @@ fn c14_execute_twice_respects_floor_u16() {
 //@ stubs=market environment = plain-struct VMarket
 //@ timeout=5400 mem=30
 #[kani::proof]
-fn c14_pending_distribution_matches_reference_u32() {
+fn c14_pending_distribution_exact_ref_u32() {
     w32::pending_amount();
 }
 
